@@ -1041,7 +1041,8 @@ class USBDataPacketDeserializer(Elaboratable):
                 # If this is the end of our packet, validate our CRC and finish.
                 with m.If(~self.utmi.rx_active):
 
-                    with m.If(last_word_crc == last_word):
+                    # A valid packet carries at least its two CRC bytes, and those must match our computed CRC.
+                    with m.If((last_word_crc == last_word) & (position_in_packet >= 2)):
                         m.d.usb += [
                             self.packet_id   .eq(active_pid),
                             self.length      .eq(position_in_packet - 2),
@@ -1051,7 +1052,8 @@ class USBDataPacketDeserializer(Elaboratable):
                         for i in range(self._max_packet_size):
                             m.d.usb += self.packet[i].eq(active_packet[i]),
 
-                        m.next = "IDLE"
+                    # Whether or not the packet was valid, it's over; wait for the next one.
+                    m.next = "IDLE"
 
             # IRRELEVANT -- we've encountered a malformed or non-handshake packet
             with m.State("IRRELEVANT"):
